@@ -181,6 +181,62 @@ def lookup_special(obj, name):
     return None
 
 
+class LoopCut:
+    """Loop contract for a `while` with a symbolic guard (DESIGN 2.2): assert the invariant on entry; havoc the modified
+    names; (a) assume invariant and guard, run the body once, require the invariant again and a strictly decreased
+    variant - a failure surfaces as an AssertionError outcome; (b) assume invariant and not guard and go on after the loop."""
+
+    def __init__(self, modifies, invariant, variant=None):
+        self.modifies, self.invariant, self.variant = modifies, invariant, variant
+
+    def applies(self, it, s, env):
+        """a loop whose state is concrete is simply executed"""
+        return any(deep_has_sym(env.get(n)) for n in self.modifies) or is_sym(it.truth(it.ev(s.test, env)))
+
+    def run_while(self, it, s, env):
+        import z3
+        entry = {n: env.get(n) for n in self.modifies}
+        inv0 = self.invariant(env, entry)
+        if is_sym(inv0):
+            if it.check(z3.Not(B(inv0))) != z3.unsat:
+                raise RaiseEx(AssertionError(f'loop invariant does not hold on entry (line {s.lineno})'))
+        elif not inv0:
+            raise RaiseEx(AssertionError(f'loop invariant does not hold on entry (line {s.lineno})'))
+        for n in self.modifies:
+            cur = env.get(n)
+            env.set_existing(n, fresh(lift(cur).k, n + '@loop'))
+        it.assume(lift(self.invariant(env, entry)))
+        which = fresh('bool', 'loopcut')
+        if it.branch(which):
+            # (a) an arbitrary iteration
+            g = it.truth(it.ev(s.test, env))
+            if not it.branch(g):
+                raise PathDead()
+            v0 = self.variant(env) if self.variant else None
+            try:
+                it.block(s.body, env)
+            except ContinueEx:
+                pass
+            except BreakEx:
+                raise PathDead()
+            inv1 = self.invariant(env, entry)
+            ok = lift(inv1)
+            if self.variant is not None:
+                ok = And(ok, cmp(ast.Lt, self.variant(env), v0), cmp(ast.GtE, self.variant(env), 0))
+            if is_sym(ok):
+                if it.check(z3.Not(B(ok))) != z3.unsat:
+                    raise RaiseEx(AssertionError(f'loop invariant / variant not preserved by the body (line {s.lineno})'))
+            elif not ok:
+                raise RaiseEx(AssertionError(f'loop invariant / variant not preserved by the body (line {s.lineno})'))
+            raise PathDead()
+        # (b) after the loop
+        g = it.truth(it.ev(s.test, env))
+        if it.branch(g):
+            raise PathDead()
+        if s.orelse:
+            it.block(s.orelse, env)
+
+
 class Env:
     def __init__(self, loc, clo, glob, parent=None, func=None):
         self.loc, self.clo, self.glob, self.parent, self.func = loc, clo, glob, parent, func
@@ -513,6 +569,9 @@ class Interp:
                     break
             if not is_repo_func(init):
                 direct = any(is_sym(a) for a in args) or any(is_sym(a) for a in kwargs.values())
+                import dataclasses
+                if direct and dataclasses.is_dataclass(cls) and not hasattr(cls, '__post_init__') and is_repo_obj(object.__new__(cls)):
+                    direct = False            # generated __init__ of a plain repository dataclass only stores its fields
                 if direct:
                     raise Unsupported(f'native constructor {cls.__name__} with symbolic argument')
                 return self.native(cls, args, kwargs)
@@ -705,7 +764,7 @@ class Interp:
 
     def s_While(self, s, env):
         lc = self.find_loop_contract(s, env)
-        if lc is not None:
+        if lc is not None and lc.applies(self, s, env):
             return lc.run_while(self, s, env)
         n = 0
         broke = False
